@@ -60,14 +60,20 @@ pub struct Spec<'a> {
     pub cwd: Option<&'a Path>,
     pub env: Vec<(String, String)>,
     pub timeout: Duration,
+    /// deliver stdin in chunks of this many bytes with short pauses (short reads in the child)
+    pub stdin_chunk: Option<usize>,
 }
 
 impl<'a> Spec<'a> {
     pub fn new(args: &[&str]) -> Spec<'a> {
-        Spec { exe: None, args: args.iter().map(|s| s.to_string()).collect(), stdin: None, cwd: None, env: vec![], timeout: Duration::from_secs(60) }
+        Spec { exe: None, args: args.iter().map(|s| s.to_string()).collect(), stdin: None, cwd: None, env: vec![], timeout: Duration::from_secs(60), stdin_chunk: None }
     }
     pub fn stdin(mut self, data: &[u8]) -> Self {
         self.stdin = Some(data.to_vec());
+        self
+    }
+    pub fn chunked(mut self, n: usize) -> Self {
+        self.stdin_chunk = Some(n.max(1));
         self
     }
     pub fn cwd(mut self, p: &'a Path) -> Self {
@@ -107,10 +113,22 @@ pub fn run(spec: Spec) -> CliRun {
             return CliRun { stdout: vec![], stderr: vec![], code: None, signal: None, timed_out: false, spawn_error: Some(e.to_string()) }
         }
     };
+    let chunk = spec.stdin_chunk;
     let stdin_thread = spec.stdin.map(|data| {
         let mut si = child.stdin.take().unwrap();
-        std::thread::spawn(move || {
-            let _ = si.write_all(&data);
+        std::thread::spawn(move || match chunk {
+            None => {
+                let _ = si.write_all(&data);
+            }
+            Some(n) => {
+                for c in data.chunks(n) {
+                    if si.write_all(c).is_err() {
+                        break;
+                    }
+                    let _ = si.flush();
+                    std::thread::sleep(Duration::from_micros(120));
+                }
+            }
         })
     });
     let mut so = child.stdout.take().unwrap();
